@@ -10,7 +10,7 @@ from vp_common import Atom, Ctx, Failure, line, run_driver
 PROP = 'C07'
 RULE = ('histories of calls (candidate list, cap) on the process-global counter, generated from one PRNG: '
         'stable duplicate-free lists presented in random order with changing caps (0..n+3), plus unstable lists '
-        '(growing/shrinking, with duplicates). Non-trivial = history with >= 2 calls, at least one cap strictly '
+        '(growing/shrinking, with duplicates), plus a stable list of >30000 candidates with a small cap. Non-trivial = history with >= 2 calls, at least one cap strictly '
         'between 0 and the list size; distinct = distinct (lists, caps) sequence.')
 ASSUMPTIONS = ['CPython sorted() is stable (modelled by a stable insertion sort)',
                'combination tuples are modelled by natural-number ids (only equality/hash of keys is used by the code)',
@@ -19,6 +19,14 @@ ASSUMPTIONS = ['CPython sorted() is stable (modelled by a stable insertion sort)
 
 def key_of(i):
     return (f'f{i}', f'g{i % 7}')
+
+
+def gen_huge(rng):
+    """a stable list with more than 30000 distinct candidates (e.g. all pairs of 250 features) and a small cap"""
+    n = rng.randint(30500, 31500)
+    base = list(range(1000, 1000 + n))
+    cap = rng.choice([1, 3, 7])
+    return {'kind': 'stable-huge', 'base': base, 'calls': [(base, cap)] * rng.choice([3, 4])}
 
 
 def gen_history(rng, thorough):
@@ -71,6 +79,8 @@ def model_lines(case):
 
 def oracle_lines(case, steps):
     ls = []
+    if case['kind'] == 'stable-huge':          # the quadratic Lean spec ops are replaced by the linear checks in evaluate()
+        return ls
     for (l, cap), st in zip(case['calls'], steps):
         ls.append(line(Atom(PROP), Atom('spec'), st['pre'], l, cap, st['ret']))
         if case['kind'] == 'stable':
@@ -93,7 +103,7 @@ def evaluate(ctx: Ctx, cases, oracle_only=False):
         ctx.evaluations += 1
         ncalls = len(c['calls'])
         if ncalls >= 2 and any(0 < cap < len(l) for l, cap in c['calls']):
-            ctx.nontrivial.add(repr(c['calls']))
+            ctx.nontrivial.add(hash(repr(c['calls'])))
         ctx.count('kind:' + c['kind'])
         ctx.count('calls:%d' % (ncalls if ncalls < 10 else (ncalls // 10) * 10))
         for l, cap in c['calls']:
@@ -105,17 +115,34 @@ def evaluate(ctx: Ctx, cases, oracle_only=False):
                 mret, mcnt = mrep[1 + 2 * i], mrep[2 + 2 * i]
                 mcnt = [x for x in mcnt]
                 if mret != s['ret'] or [list(x) for x in mcnt] != s['post']:
-                    ctx.corr_fail('call', f'call #{i}: impl returned {s["ret"]}, model {mret}; impl counter {s["post"]}, model {mcnt}',
-                                  {**c, 'calls': c['calls'][:i + 1]})
+                    ctx.corr_fail('call', f'call #{i}: impl returned {str(s["ret"])[:200]}, model {str(mret)[:200]}; impl counter {str(s["post"])[:200]}, model {str(mcnt)[:200]}',
+                                  {**c, 'calls': c['calls'][:i + 1]} if c['kind'] != 'stable-huge' else {'kind': c['kind'], 'n': len(c['base'])})
                     break
             ctx.traces += 1
         # oracle
         j = 0
         acc = {}
         for i, ((l, cap), s) in enumerate(zip(c['calls'], st)):
-            ok = orep[j]; j += 1
             for k in s['ret']:
                 acc[k] = acc.get(k, 0) + 1
+            if c['kind'] == 'stable-huge':
+                # same clauses, evaluated in linear time: |ret| = min(cap,n), distinct members of the list, spread <= 1, accounting
+                short = {'kind': c['kind'], 'n': len(l), 'first_key': l[0], 'cap': cap, 'ncalls': i + 1}
+                post = dict((k, v) for k, v in s['post'])
+                cnts = [post.get(k, 0) for k in c['base']]
+                if len(s['ret']) != min(cap, len(l)) or len(set(s['ret'])) != len(s['ret']) or not set(s['ret']) <= set(l):
+                    ctx.oracle_fail('per-call-clauses', f'huge list n={len(l)} cap={cap} call #{i}: returned {s["ret"]}', short)
+                    break
+                if max(cnts) - min(cnts) > 1:
+                    ctx.oracle_fail('fairness', f'huge list n={len(l)} cap={cap}: after call #{i} counts range {min(cnts)}..{max(cnts)} '
+                                    f'(selections so far {sorted(acc.items())[:8]})', short)
+                    break
+                if {k: v for k, v in post.items() if v} != acc:
+                    ctx.oracle_fail('accounting', f'huge list n={len(l)} cap={cap}: after call #{i} reported non-zero counts '
+                                    f'{sorted((k, v) for k, v in post.items() if v)[:8]} != selections so far {sorted(acc.items())[:8]}', short)
+                    break
+                continue
+            ok = orep[j]; j += 1
             short = {**c, 'calls': c['calls'][:i + 1]}
             if ok != Atom('true'):
                 ctx.oracle_fail('per-call-clauses', f'call #{i} cands={l} cap={cap} pre={s["pre"]} returned {s["ret"]}: violates '
@@ -130,7 +157,8 @@ def evaluate(ctx: Ctx, cases, oracle_only=False):
             if post != acc:
                 ctx.oracle_fail('accounting', f'after call #{i} reported counts {s["post"]} != selections so far {sorted(acc.items())}', short)
                 break
-        ctx.sample({'kind': c['kind'], 'calls': c['calls'][:3], 'impl_first_returns': [s['ret'] for s in st[:3]]})
+        if c['kind'] != 'stable-huge':
+            ctx.sample({'kind': c['kind'], 'calls': c['calls'][:3], 'impl_first_returns': [s['ret'] for s in st[:3]]})
 
 
 def corpus():
@@ -145,6 +173,7 @@ def corpus():
 def run(ctx: Ctx):
     n = 3000 if ctx.thorough() else 300
     cases = corpus() + [gen_history(ctx.rng, ctx.thorough()) for _ in range(n)]
+    cases += [gen_huge(ctx.rng) for _ in range(4 if ctx.thorough() else 1)]
     evaluate(ctx, cases)
 
 
